@@ -1,9 +1,18 @@
 /-
 Level C for `repack_pack`: copy to the temporary pack, commit, unlink the old pack, link back, commit, unlink.
+
+A note on the formulation of `done_repackPack`.  The association list of pack files is a *set* of files: Level B
+(`repackPack`) replaces pack `p` in place (`setPack`), whereas the action list unlinks `p` and links the temporary pack
+back under the name `p`, which puts `p` at the end of the model's list.  Equality of the pack *lists* (`SameDisk`) is
+therefore too strong (machine-checked witness: `Repack.Cx.*`, `done_repackPack_listorder_differs`); the statement proved,
+`done_repackPack`, uses `SameFiles`: the pack lists are equal up to permutation and equal as maps (`getPack`); rows,
+loose files and target are equal.  `done_repackPack_last` gives list equality when `p` is the last pack file or has no
+rows; `Repack.done_repackPack_cons/_nil` give the exact final state.  `safe_repackPack` is the safety theorem.
 -/
 import Dos.IOSpec
 import Dos.Proofs.Step
 import Dos.Proofs.C11
+import Dos.Proofs.IORepackAux
 
 namespace Dos.IO
 open Dos
@@ -11,17 +20,849 @@ open Dos
 /-- no pack file and no row uses the reserved id of the temporary pack -/
 def NoTmp (s : St) : Prop := (∀ e ∈ s.packs, e.1 ≠ tmpId) ∧ (∀ r ∈ s.rows, r.pack ≠ tmpId)
 
-/-- run to completion, the action list is the Level-B repack of that pack (verdicts `zs` admissible for `m`) -/
-theorem done_repackPack {t : Tab} {s s' : St} (inv : Inv t s) (nt : NoTmp s) {m : Mode} {p : Nat} {order : List Nat}
-    {zs : List Bool} (hp : p ≠ tmpId) (h : repackPack t s m p order zs = some s') :
-    SameDisk (toSt (execAll (ofSt s) (actsRepackPack t s p zs))) s' := by
-  sorry
+namespace Repack
 
+/-! ### the rows: moves and repointing -/
+
+def setPk (q : Nat) (r : Row) : Row := { r with pack := q }
+
+/-- the rows copied, in copy order -/
+abbrev srt (s : St) (p : Nat) : List Row := sortByOff (rowsOfPack s.rows p)
+
+/-- the rebuilt rows, as Level B computes them -/
+abbrev rsP (t : Tab) (s : St) (p : Nat) (zs : List Bool) : List Row := (rebuild t p (srt s p) zs 0).2
+
+/-- the committed index while (`q = tmpId`) and after (`q = p`) the rows of pack `p` name the copy -/
+def mvd (t : Tab) (s : St) (p : Nat) (zs : List Bool) (q : Nat) (o : Row) : Row :=
+  if o.pack = p then setPk q (repackRow p (rsP t s p zs) o) else o
+
+theorem rebuild_fst_pack (t : Tab) (q q' : Nat) (rs : List Row) (zs : List Bool) (off : Nat) :
+    (rebuild t q rs zs off).1 = (rebuild t q' rs zs off).1 := by
+  induction rs generalizing zs off with
+  | nil => rfl
+  | cons r rs ih => simp only [rebuild_cons]; rw [ih]
+
+theorem rebuild_snd_pack (t : Tab) (q q' : Nat) (rs : List Row) (zs : List Bool) (off : Nat) :
+    (rebuild t q rs zs off).2 = (rebuild t q' rs zs off).2.map (setPk q) := by
+  induction rs generalizing zs off with
+  | nil => rfl
+  | cons r rs ih => simp only [rebuild_cons, List.map_cons]; rw [ih]; rfl
+
+def mvRow (o r : Row) : Row := if o.key = r.key then { r with id := o.id } else o
+def mvStep (W : List Row) (r : Row) : List Row := W.map (fun o => mvRow o r)
+
+theorem foldl_mvStep (l : List Row) (W : List Row) : l.foldl mvStep W = W.map (fun o => l.foldl mvRow o) := by
+  induction l generalizing W with
+  | nil => simp
+  | cons r l ih => simp only [List.foldl_cons, ih, mvStep, List.map_map]; rfl
+
+theorem mvRow_fold_none {l : List Row} {o : Row} (h : ∀ r ∈ l, r.key ≠ o.key) : l.foldl mvRow o = o := by
+  induction l with
+  | nil => rfl
+  | cons r l ih =>
+    have h1 : ¬ o.key = r.key := fun h' => h r (by simp) h'.symm
+    simp only [List.foldl_cons, mvRow, h1, if_false]
+    exact ih (fun r' hr' => h r' (List.mem_cons_of_mem _ hr'))
+
+theorem mvRow_fold_some {l : List Row} (nd : (l.map (·.key)).Nodup) {o r : Row} (hr : r ∈ l) (hk : r.key = o.key) :
+    l.foldl mvRow o = { r with id := o.id } := by
+  induction l generalizing o with
+  | nil => simp at hr
+  | cons a l ih =>
+    simp only [List.map_cons, List.nodup_cons] at nd
+    rcases List.mem_cons.mp hr with h | h
+    · subst h
+      have e : mvRow o r = { r with id := o.id } := by simp [mvRow, hk]
+      simp only [List.foldl_cons, e]
+      apply mvRow_fold_none
+      intro r' hr' hk'
+      have hk'' : r'.key = r.key := hk'
+      exact nd.1 (hk'' ▸ List.mem_map_of_mem (f := (·.key)) hr')
+    · have h1 : ¬ o.key = a.key := by
+        intro h'
+        exact nd.1 (by rw [← h', ← hk]; exact List.mem_map_of_mem (f := (·.key)) h)
+      simp only [List.foldl_cons, mvRow, h1, if_false]
+      exact ih nd.2 h hk
+
+/-- all `sqlMove`s together turn the index into the one whose rows of pack `p` name pack `q` -/
+theorem moves_rows {t : Tab} {s : St} (inv : Inv t s) (p q : Nat) (zs : List Bool) :
+    ((rsP t s p zs).map (setPk q)).foldl mvStep s.rows = s.rows.map (mvd t s p zs q) := by
+  rw [foldl_mvStep]
+  apply List.map_congr_left
+  intro o ho
+  have nd : (((rsP t s p zs).map (setPk q)).map (·.key)).Nodup := by
+    rw [List.map_map]
+    have : ((·.key) ∘ setPk q : Row → Nat) = (·.key) := rfl
+    rw [this, rebuild_keys]
+    exact rowsOfPack_keys_nodup inv p
+  by_cases hp : o.pack = p
+  · obtain ⟨r', hm', hf, h1, h2, _, _⟩ := repack_row inv p zs ho hp
+    have e : repackRow p (rsP t s p zs) o = r' := by simp [repackRow, hp, hf]
+    rw [mvRow_fold_some nd (List.mem_map_of_mem (f := setPk q) hm') (by simpa [setPk] using h1)]
+    simp only [mvd, hp, if_true, e]
+    cases r'
+    simp_all [setPk]
+  · simp only [mvd, hp, if_false]
+    apply mvRow_fold_none
+    intro r hr hk
+    simp only [List.mem_map] at hr
+    obtain ⟨r', hr', rfl⟩ := hr
+    obtain ⟨r0, hr0, h1, _⟩ := rebuild_mem hr'
+    obtain ⟨hr0', hr0p⟩ := mem_rowsOfPack.mp (mem_sortByOff.mp hr0)
+    have : r0 = o := eq_of_key_eq inv.keys_nodup hr0' ho (by rw [← h1]; simpa [setPk] using hk)
+    exact hp (this ▸ hr0p)
+
+/-- `sqlRepoint tmpId p` after the first commit -/
+theorem repoint_rows {t : Tab} {s : St} (p : Nat) (zs : List Bool) (hT : ∀ r ∈ s.rows, r.pack ≠ tmpId) :
+    (s.rows.map (mvd t s p zs tmpId)).map (fun o => if o.pack = tmpId then { o with pack := p } else o) =
+      s.rows.map (mvd t s p zs p) := by
+  rw [List.map_map]
+  apply List.map_congr_left
+  intro o ho
+  by_cases hp : o.pack = p
+  · simp [mvd, hp, setPk]
+  · simp [mvd, hp, hT o ho]
+
+/-- after the second commit the index is the one Level B computes -/
+theorem mvd_self {t : Tab} {s : St} (inv : Inv t s) (p : Nat) (zs : List Bool) :
+    s.rows.map (mvd t s p zs p) = s.rows.map (repackRow p (rsP t s p zs)) := by
+  apply List.map_congr_left
+  intro o ho
+  obtain ⟨_, _, h3, _, h5, _⟩ := repackRow_spec inv p zs ho
+  by_cases hp : o.pack = p
+  · simp only [mvd, hp, if_true]
+    rw [hp] at h3
+    generalize repackRow p (rsP t s p zs) o = r' at h3
+    cases r'
+    simp_all [setPk]
+  · simp only [mvd, hp, if_false]
+    exact (h5 hp).symm
+
+/-! ### good states -/
+
+theorem rowIn_of_inv {t : Tab} {s : St} (inv : Inv t s) {r : Row} (hr : r ∈ s.rows) :
+    ∃ segs, getX (ofSt s).packs r.pack = some (full segs) ∧ RowIn t segs r := by
+  obtain ⟨segs, h1, h2⟩ := rowOK_iff.mp (inv.rows_ok r hr)
+  exact ⟨segs, by rw [getX_ofSt, h1]; rfl, h2⟩
+
+/-- the index is the one of the start, and the packs it names are untouched -/
+theorem good_same {t : Tab} {s : St} (inv : Inv t s) {x : XSt} (hl : x.loose = (ofSt s).loose)
+    (ht : x.target = s.target) (hr : x.rows = s.rows)
+    (hp : ∀ r ∈ s.rows, getX x.packs r.pack = getX (ofSt s).packs r.pack)
+    (hn : (x.packs.map (·.1)).Nodup) : Good t s x := by
+  refine ⟨hl, ht, by rw [hr], by rw [hr], by rw [hr]; exact inv.ids_pos, ?_, hn⟩
+  intro r hr'
+  rw [hr] at hr'
+  rw [hp r hr']
+  exact rowIn_of_inv inv hr'
+
+/-- the rows of pack `p` name pack `q`, which holds the rebuilt layout, completely flushed and synced -/
+theorem good_moved {t : Tab} {s : St} (inv : Inv t s) (p q : Nat) (zs : List Bool)
+    (hq : ∀ r ∈ s.rows, r.pack ≠ p → r.pack ≠ q) {x : XSt} (hl : x.loose = (ofSt s).loose)
+    (ht : x.target = s.target) (hr : x.rows = s.rows.map (mvd t s p zs q))
+    (hq1 : getX x.packs q = some (full (rebuild t p (srt s p) zs 0).1))
+    (hq2 : ∀ r ∈ s.rows, r.pack ≠ p → getX x.packs r.pack = getX (ofSt s).packs r.pack)
+    (hn : (x.packs.map (·.1)).Nodup) : Good t s x := by
+  have spec := fun (r : Row) (hr : r ∈ s.rows) => repackRow_spec inv p zs hr
+  refine ⟨hl, ht, ?_, ?_, ?_, ?_, hn⟩
+  · rw [hr, List.map_map]
+    apply List.map_congr_left
+    intro r hr'
+    by_cases hp : r.pack = p
+    · simp only [Function.comp, mvd, hp, if_true]
+      exact (spec r hr').1
+    · simp [mvd, hp]
+  · rw [hr, List.map_map]
+    apply List.map_congr_left
+    intro r hr'
+    by_cases hp : r.pack = p
+    · simp only [Function.comp, mvd, hp, if_true]
+      exact (spec r hr').2.1
+    · simp [mvd, hp]
+  · intro r1' h1' r2' h2' hpack hlt
+    rw [hr] at h1' h2'
+    simp only [List.mem_map] at h1' h2'
+    obtain ⟨r1, hr1, rfl⟩ := h1'
+    obtain ⟨r2, hr2, rfl⟩ := h2'
+    obtain ⟨_, hi1, _, _, _, heq1⟩ := spec r1 hr1
+    obtain ⟨_, hi2, _, _, _, heq2⟩ := spec r2 hr2
+    by_cases hp1 : r1.pack = p <;> by_cases hp2 : r2.pack = p
+    · simp only [mvd, hp1, hp2, if_true] at hlt ⊢
+      exact rebuilt_pos inv p zs (a := repackRow p (rsP t s p zs) r1) (b := repackRow p (rsP t s p zs) r2)
+        (heq1 hp1) (heq2 hp2) hlt
+    · simp only [mvd, hp1, hp2, if_true, if_false] at hpack
+      exact absurd hpack.symm (hq r2 hr2 hp2)
+    · simp only [mvd, hp1, hp2, if_true, if_false] at hpack
+      exact absurd hpack (hq r1 hr1 hp1)
+    · simp only [mvd, hp1, hp2, if_false] at hpack hlt ⊢
+      exact inv.ids_pos r1 hr1 r2 hr2 hpack hlt
+  · intro r' hr'
+    rw [hr] at hr'
+    simp only [List.mem_map] at hr'
+    obtain ⟨r, hr0, rfl⟩ := hr'
+    obtain ⟨hk, _, _, hsz, _, heq⟩ := spec r hr0
+    by_cases hp : r.pack = p
+    · have hm' := heq hp
+      obtain ⟨pre, post, hl1, hl2⟩ := rebuild_layout hm'
+      obtain ⟨r0, _, _, _, _, _, hlen⟩ := rebuild_mem hm'
+      obtain ⟨_, _, _, _, _, _, _, hsize⟩ := inv.rows_ok r hr0
+      simp only [mvd, hp, if_true]
+      refine ⟨_, hq1, pre, post, hl1, by simpa [setPk] using hl2, hlen, ?_⟩
+      show (repackRow p (rsP t s p zs) r).size = t.size (repackRow p (rsP t s p zs) r).key
+      rw [hsz, hk, hsize]
+    · simp only [mvd, hp, if_false]
+      rw [hq2 r hr0 hp]
+      exact rowIn_of_inv inv hr0
+
+/-! ### the action list -/
+
+theorem sortByOff_eq_nil {l : List Row} (h : sortByOff l = []) : l = [] := by
+  have := (sortByOff_perm l).symm
+  rw [h] at this
+  exact this.eq_nil
+
+theorem acts_nil {t : Tab} {s : St} {p : Nat} {zs : List Bool} (h : rowsOfPack s.rows p = []) :
+    actsRepackPack t s p zs = if (getPack s.packs p).isSome then [.pkUnlink p] else [] := by
+  unfold actsRepackPack
+  simp [h, sortByOff]
+
+theorem acts_cons {t : Tab} {s : St} {p : Nat} {zs : List Bool} (h : rowsOfPack s.rows p ≠ []) :
+    actsRepackPack t s p zs =
+      ([.lock tmpId, .pkOpen tmpId, .pkRead p] ++
+        ((rebuild t p (srt s p) zs 0).1.map (fun g => Act.pkWrite tmpId g) ++
+         [.pkFlush tmpId, .pkFsync tmpId, .dirSync, .pkClose tmpId, .unlock tmpId])) ++
+      (((rsP t s p zs).map (setPk tmpId)).map .sqlMove ++
+        (.sqlCommit :: [.pkUnlink p, .pkLink tmpId p, .sqlRepoint tmpId p, .sqlCommit, .pkUnlink tmpId])) := by
+  unfold actsRepackPack
+  simp only
+  split
+  · rename_i h0
+    exact absurd (sortByOff_eq_nil h0) h
+  · rw [rebuild_fst_pack t tmpId p, rebuild_snd_pack t tmpId p]
+    simp [srt, rsP]
+
+/-! ### phase 1: up to the first commit the index and the packs it names are untouched -/
+
+structure Ph1 (s : St) (x : XSt) : Prop where
+  loose : x.loose = (ofSt s).loose
+  target : x.target = s.target
+  rows : x.rows = s.rows
+  packs : ∀ q, q ≠ tmpId → getX x.packs q = getX (ofSt s).packs q
+  nodup : (x.packs.map (·.1)).Nodup
+
+def Q1 : Act → Prop
+  | .lock _ | .unlock _ | .pkRead _ | .dirSync | .sqlMove _ => True
+  | .pkOpen q | .pkWrite q _ | .pkFlush q | .pkFsync q | .pkClose q => q = tmpId
+  | _ => False
+
+theorem ph1_upd {s : St} {x : XSt} (h : Ph1 s x) (f : XPack → XPack) :
+    Ph1 s { x with packs := updX x.packs tmpId f } := by
+  refine ⟨h.loose, h.target, h.rows, ?_, ?_⟩
+  · intro q hq
+    show getX (updX x.packs tmpId f) q = _
+    rw [getX_updX, if_neg hq]
+    exact h.packs q hq
+  · show ((updX x.packs tmpId f).map (·.1)).Nodup
+    rw [keys_updX]; exact h.nodup
+
+theorem ph1_step {s : St} (x : XSt) (a : Act) (ha : Q1 a) (h : Ph1 s x) : Ph1 s (exec x a) := by
+  cases a <;> simp only [Q1] at ha
+  case dirSync => exact h
+  case lock q => exact ⟨h.loose, h.target, h.rows, h.packs, h.nodup⟩
+  case unlock q => exact ⟨h.loose, h.target, h.rows, h.packs, h.nodup⟩
+  case pkRead q => exact h
+  case sqlMove r => exact ⟨h.loose, h.target, h.rows, h.packs, h.nodup⟩
+  case pkWrite q g => subst ha; exact ph1_upd h _
+  case pkFlush q => subst ha; exact ph1_upd h _
+  case pkFsync q => subst ha; exact ph1_upd h _
+  case pkClose q => subst ha; exact ph1_upd h _
+  case pkOpen q =>
+    subst ha
+    simp only [exec]
+    split
+    · exact h
+    · refine ⟨h.loose, h.target, h.rows, ?_, ?_⟩
+      · intro q hq
+        show getX (setX x.packs tmpId _) q = _
+        rw [getX_setX_ne _ _ _ _ hq]
+        exact h.packs q hq
+      · exact nodup_keys_setX _ _ h.nodup
+
+theorem ph1_ofSt {t : Tab} {s : St} (inv : Inv t s) : Ph1 s (ofSt s) :=
+  ⟨rfl, rfl, rfl, fun _ _ => rfl, by rw [keys_ofSt]; exact inv.packs_nodup⟩
+
+theorem good_of_ph1 {t : Tab} {s : St} (inv : Inv t s) (hT : ∀ r ∈ s.rows, r.pack ≠ tmpId) {x : XSt}
+    (h : Ph1 s x) : Good t s x :=
+  good_same inv h.loose h.target h.rows (fun r hr => h.packs _ (hT r hr)) h.nodup
+
+/-! ### the states reached, exactly -/
+
+/-- the states of the repack differ from the start in the packs, the index, the open transaction and the locks -/
+def st (s : St) (L : List Nat) (P : List (Nat × XPack)) (R : List Row) (W : Option (List Row)) : XSt :=
+  { loose := (ofSt s).loose, sandbox := none, packs := P, rows := R, work := W, locks := L,
+    cur := s.cur, target := s.target }
+
+theorem ofSt_eq_st (s : St) : ofSt s = st s [] (ofSt s).packs s.rows none := rfl
+
+theorem exec_writes (s : St) (L : List Nat) (A : List (Nat × XPack)) (R : List Row) (W : Option (List Row))
+    (hA : tmpId ∉ A.map (·.1)) (gs : List Seg) (v : XPack) :
+    execAll (st s L (A ++ [(tmpId, v)]) R W) (gs.map (fun g => Act.pkWrite tmpId g)) =
+      st s L (A ++ [(tmpId, { v with segs := v.segs ++ gs })]) R W := by
+  induction gs generalizing v with
+  | nil => simp [execAll]
+  | cons g gs ih =>
+    simp only [List.map_cons, execAll]
+    have : exec (st s L (A ++ [(tmpId, v)]) R W) (.pkWrite tmpId g) =
+        st s L (A ++ [(tmpId, { v with segs := v.segs ++ [g] })]) R W := by
+      simp only [exec, st, updX_append_last v _ hA]
+    rw [this, ih]
+    simp
+
+theorem exec_moves_commit (s : St) (L : List Nat) (P : List (Nat × XPack)) (R : List Row) (l : List Row)
+    (W : Option (List Row)) :
+    execAll (st s L P R W) (l.map .sqlMove ++ [.sqlCommit]) = st s L P (l.foldl mvStep (W.getD R)) none := by
+  induction l generalizing W with
+  | nil => rfl
+  | cons r l ih =>
+    simp only [List.map_cons, List.cons_append, execAll]
+    have : exec (st s L P R W) (.sqlMove r) = st s L P R (some (mvStep (W.getD R) r)) := rfl
+    rw [this, ih]
+    rfl
+
+theorem tmp_not_mem {s : St} (hT : ∀ e ∈ s.packs, e.1 ≠ tmpId) : tmpId ∉ (ofSt s).packs.map (·.1) := by
+  rw [keys_ofSt]
+  intro h
+  simp only [List.mem_map] at h
+  obtain ⟨e, he, h⟩ := h
+  exact hT e he h
+
+/-- the copy: the temporary pack holds the rebuilt layout, flushed and synced; nothing else has changed -/
+theorem exec_copy {s : St} (hT : ∀ e ∈ s.packs, e.1 ≠ tmpId) (p : Nat) (gs : List Seg) :
+    execAll (ofSt s) ([.lock tmpId, .pkOpen tmpId, .pkRead p] ++
+      (gs.map (fun g => Act.pkWrite tmpId g) ++
+        [.pkFlush tmpId, .pkFsync tmpId, .dirSync, .pkClose tmpId, .unlock tmpId])) =
+      st s [] ((ofSt s).packs ++ [(tmpId, full gs)]) s.rows none := by
+  have hT0 := tmp_not_mem hT
+  have eA : execAll (ofSt s) [.lock tmpId, .pkOpen tmpId, .pkRead p] =
+      st s [tmpId] ((ofSt s).packs ++ [(tmpId, ⟨[], 0, 0⟩)]) s.rows none := by
+    have e2 : exec (st s [tmpId] (ofSt s).packs s.rows none) (.pkOpen tmpId) =
+        st s [tmpId] ((ofSt s).packs ++ [(tmpId, ⟨[], 0, 0⟩)]) s.rows none := by
+      simp only [exec, st, getX_none_of_not_mem hT0, setX_of_not_mem _ hT0]
+    show exec (exec (st s [tmpId] (ofSt s).packs s.rows none) (.pkOpen tmpId)) (.pkRead p) = _
+    rw [e2]
+    rfl
+  rw [execAll_append, execAll_append, eA, exec_writes s _ _ _ _ hT0]
+  simp only [execAll, exec, st, updX_append_last _ _ hT0]
+  simp [full]
+
+section tail
+variable {t : Tab} {s : St} (p : Nat) (zs : List Bool)
+
+/-- the packs after the copy / the unlink / the link / the final unlink -/
+abbrev PB (t : Tab) (s : St) (p : Nat) (zs : List Bool) : List (Nat × XPack) :=
+  (ofSt s).packs ++ [(tmpId, full (rebuild t p (srt s p) zs 0).1)]
+abbrev PU (t : Tab) (s : St) (p : Nat) (zs : List Bool) : List (Nat × XPack) := eraseX (PB t s p zs) p
+abbrev PL (t : Tab) (s : St) (p : Nat) (zs : List Bool) : List (Nat × XPack) :=
+  setX (PU t s p zs) p (full (rebuild t p (srt s p) zs 0).1)
+abbrev PF (t : Tab) (s : St) (p : Nat) (zs : List Bool) : List (Nat × XPack) := eraseX (PL t s p zs) tmpId
+
+abbrev Rq (t : Tab) (s : St) (p : Nat) (zs : List Bool) (q : Nat) : List Row := s.rows.map (mvd t s p zs q)
+
+theorem getX_PU_tmp (hT : ∀ e ∈ s.packs, e.1 ≠ tmpId) (hp : p ≠ tmpId) :
+    getX (PU t s p zs) tmpId = some (full (rebuild t p (srt s p) zs 0).1) := by
+  rw [getX_eraseX_ne _ _ _ (Ne.symm hp)]
+  exact getX_append_last _ (tmp_not_mem hT)
+
+theorem exec_commit1 (inv : Inv t s) (hT : ∀ e ∈ s.packs, e.1 ≠ tmpId) :
+    execAll (ofSt s) (([.lock tmpId, .pkOpen tmpId, .pkRead p] ++
+        ((rebuild t p (srt s p) zs 0).1.map (fun g => Act.pkWrite tmpId g) ++
+         [.pkFlush tmpId, .pkFsync tmpId, .dirSync, .pkClose tmpId, .unlock tmpId])) ++
+      (((rsP t s p zs).map (setPk tmpId)).map .sqlMove ++ [.sqlCommit])) =
+    st s [] (PB t s p zs) (Rq t s p zs tmpId) none := by
+  rw [execAll_append, exec_copy hT, exec_moves_commit]
+  show st s [] (PB t s p zs) (((rsP t s p zs).map (setPk tmpId)).foldl mvStep s.rows) none = _
+  rw [moves_rows inv]
+
+theorem exec_tail1 : exec (st s [] (PB t s p zs) (Rq t s p zs tmpId) none) (.pkUnlink p) =
+    st s [] (PU t s p zs) (Rq t s p zs tmpId) none := rfl
+
+theorem exec_tail2 (hT : ∀ e ∈ s.packs, e.1 ≠ tmpId) (hp : p ≠ tmpId) :
+    exec (st s [] (PU t s p zs) (Rq t s p zs tmpId) none) (.pkLink tmpId p) =
+      st s [] (PL t s p zs) (Rq t s p zs tmpId) none := by
+  simp only [exec, st, getX_PU_tmp p zs hT hp]
+
+theorem exec_tail3 : exec (st s [] (PL t s p zs) (Rq t s p zs tmpId) none) (.sqlRepoint tmpId p) =
+    st s [] (PL t s p zs) (Rq t s p zs tmpId)
+      (some ((Rq t s p zs tmpId).map (fun o => if o.pack = tmpId then { o with pack := p } else o))) := rfl
+
+theorem exec_tail4 (hT : ∀ r ∈ s.rows, r.pack ≠ tmpId) :
+    exec (st s [] (PL t s p zs) (Rq t s p zs tmpId)
+      (some ((Rq t s p zs tmpId).map (fun o => if o.pack = tmpId then { o with pack := p } else o)))) .sqlCommit =
+    st s [] (PL t s p zs) (Rq t s p zs p) none := by
+  have e : exec (st s [] (PL t s p zs) (Rq t s p zs tmpId)
+      (some ((Rq t s p zs tmpId).map (fun o => if o.pack = tmpId then { o with pack := p } else o)))) .sqlCommit =
+      st s [] (PL t s p zs)
+        ((Rq t s p zs tmpId).map (fun o => if o.pack = tmpId then { o with pack := p } else o)) none := rfl
+  rw [e, repoint_rows p zs hT]
+
+theorem exec_tail5 : exec (st s [] (PL t s p zs) (Rq t s p zs p) none) (.pkUnlink tmpId) =
+    st s [] (PF t s p zs) (Rq t s p zs p) none := rfl
+
+theorem PB_eq (hT : ∀ e ∈ s.packs, e.1 ≠ tmpId) :
+    PB t s p zs = setX (ofSt s).packs tmpId (full (rebuild t p (srt s p) zs 0).1) :=
+  (setX_of_not_mem _ (tmp_not_mem hT)).symm
+
+theorem packs_other (hT : ∀ e ∈ s.packs, e.1 ≠ tmpId) {q : Nat} (hq1 : q ≠ p) (hq2 : q ≠ tmpId) :
+    getX (PB t s p zs) q = getX (ofSt s).packs q ∧ getX (PU t s p zs) q = getX (ofSt s).packs q ∧
+    getX (PL t s p zs) q = getX (ofSt s).packs q ∧ getX (PF t s p zs) q = getX (ofSt s).packs q := by
+  have hB : getX (PB t s p zs) q = getX (ofSt s).packs q := by
+    rw [PB_eq p zs hT, getX_setX_ne _ _ _ _ hq2]
+  have hU : getX (PU t s p zs) q = getX (ofSt s).packs q := by
+    show getX (eraseX (PB t s p zs) p) q = _
+    rw [getX_eraseX_ne _ _ _ hq1]; exact hB
+  have hL : getX (PL t s p zs) q = getX (ofSt s).packs q := by
+    show getX (setX (PU t s p zs) p _) q = _
+    rw [getX_setX_ne _ _ _ _ hq1]; exact hU
+  have hF : getX (PF t s p zs) q = getX (ofSt s).packs q := by
+    show getX (eraseX (PL t s p zs) tmpId) q = _
+    rw [getX_eraseX_ne _ _ _ hq2]; exact hL
+  exact ⟨hB, hU, hL, hF⟩
+
+theorem packs_nodup (inv : Inv t s) (hT : ∀ e ∈ s.packs, e.1 ≠ tmpId) :
+    ((PB t s p zs).map (·.1)).Nodup ∧ ((PU t s p zs).map (·.1)).Nodup ∧
+    ((PL t s p zs).map (·.1)).Nodup ∧ ((PF t s p zs).map (·.1)).Nodup := by
+  have h0 : ((ofSt s).packs.map (·.1)).Nodup := by rw [keys_ofSt]; exact inv.packs_nodup
+  have hB : ((PB t s p zs).map (·.1)).Nodup := by
+    rw [PB_eq p zs hT]; exact nodup_keys_setX _ _ h0
+  have hU : ((PU t s p zs).map (·.1)).Nodup := nodup_keys_eraseX _ hB
+  have hL : ((PL t s p zs).map (·.1)).Nodup := nodup_keys_setX _ _ hU
+  exact ⟨hB, hU, hL, nodup_keys_eraseX _ hL⟩
+
+theorem packs_copy (hT : ∀ e ∈ s.packs, e.1 ≠ tmpId) (hp : p ≠ tmpId) :
+    getX (PB t s p zs) tmpId = some (full (rebuild t p (srt s p) zs 0).1) ∧
+    getX (PU t s p zs) tmpId = some (full (rebuild t p (srt s p) zs 0).1) ∧
+    getX (PL t s p zs) tmpId = some (full (rebuild t p (srt s p) zs 0).1) ∧
+    getX (PL t s p zs) p = some (full (rebuild t p (srt s p) zs 0).1) ∧
+    getX (PF t s p zs) p = some (full (rebuild t p (srt s p) zs 0).1) := by
+  have hB := getX_append_last (full (rebuild t p (srt s p) zs 0).1) (tmp_not_mem hT)
+  have hU := getX_PU_tmp (t := t) p zs hT hp
+  have hL : getX (PL t s p zs) tmpId = some (full (rebuild t p (srt s p) zs 0).1) := by
+    show getX (setX (PU t s p zs) p _) tmpId = _
+    rw [getX_setX_ne _ _ _ _ (Ne.symm hp)]; exact hU
+  have hLp : getX (PL t s p zs) p = some (full (rebuild t p (srt s p) zs 0).1) := getX_setX_eq _ _ _
+  have hF : getX (PF t s p zs) p = some (full (rebuild t p (srt s p) zs 0).1) := by
+    show getX (eraseX (PL t s p zs) tmpId) p = _
+    rw [getX_eraseX_ne _ _ _ hp]; exact hLp
+  exact ⟨hB, hU, hL, hLp, hF⟩
+
+theorem good_st (inv : Inv t s) (hT : ∀ r ∈ s.rows, r.pack ≠ tmpId) (q : Nat) (hq : q = tmpId ∨ q = p)
+    (L : List Nat) (P : List (Nat × XPack)) (W : Option (List Row))
+    (h1 : getX P q = some (full (rebuild t p (srt s p) zs 0).1))
+    (h2 : ∀ q', q' ≠ p → q' ≠ tmpId → getX P q' = getX (ofSt s).packs q')
+    (h3 : (P.map (·.1)).Nodup) : Good t s (st s L P (Rq t s p zs q) W) := by
+  refine good_moved inv p q zs ?_ rfl rfl rfl h1 (fun r hr hrp => h2 _ hrp (hT r hr)) h3
+  intro r hr hrp
+  rcases hq with rfl | rfl
+  · exact hT r hr
+  · exact hrp
+
+end tail
+
+/-! ### every prefix leads to a good state -/
+
+theorem seg1 {t : Tab} {s : St} (inv : Inv t s) (hT : ∀ r ∈ s.rows, r.pack ≠ tmpId) (x : XSt) (as : List Act)
+    (hq : ∀ a ∈ as, Q1 a) (h : Ph1 s x) : AllPre (Good t s) x as ∧ Ph1 s (execAll x as) := by
+  obtain ⟨h1, h2⟩ := allPre_of_step (P := Ph1 s) (Q := Q1) ph1_step hq h
+  exact ⟨allPre_mono (fun _ hx => good_of_ph1 inv hT hx) h1, h2⟩
+
+theorem allPre_cons_case {t : Tab} {s : St} (inv : Inv t s) (hTp : ∀ e ∈ s.packs, e.1 ≠ tmpId)
+    (hTr : ∀ r ∈ s.rows, r.pack ≠ tmpId) (p : Nat) (hp : p ≠ tmpId) (zs : List Bool)
+    (hne : rowsOfPack s.rows p ≠ []) : AllPre (Good t s) (ofSt s) (actsRepackPack t s p zs) := by
+  rw [acts_cons hne]
+  obtain ⟨c1, c2, c3, c4, c5⟩ := packs_copy (t := t) (s := s) p zs hTp hp
+  obtain ⟨n1, n2, n3, n4⟩ := packs_nodup (t := t) p zs inv hTp
+  have o := fun q (h1 : q ≠ p) (h2 : q ≠ tmpId) => packs_other (t := t) (s := s) p zs hTp h1 h2
+  -- the copy
+  obtain ⟨a1, p1⟩ := seg1 inv hTr (ofSt s) ([.lock tmpId, .pkOpen tmpId, .pkRead p] ++
+        ((rebuild t p (srt s p) zs 0).1.map (fun g => Act.pkWrite tmpId g) ++
+         [.pkFlush tmpId, .pkFsync tmpId, .dirSync, .pkClose tmpId, .unlock tmpId]))
+    (by
+      intro a ha
+      simp only [List.mem_append, List.mem_map, List.mem_cons, List.not_mem_nil, or_false] at ha
+      rcases ha with (rfl | rfl | rfl) | ⟨g, _, rfl⟩ | rfl | rfl | rfl | rfl | rfl <;> simp [Q1])
+    (ph1_ofSt inv)
+  refine allPre_append a1 ?_
+  -- the moves
+  obtain ⟨a2, p2⟩ := seg1 inv hTr _ (((rsP t s p zs).map (setPk tmpId)).map .sqlMove)
+    (by
+      intro a ha
+      simp only [List.mem_map] at ha
+      obtain ⟨r, _, rfl⟩ := ha
+      simp [Q1])
+    p1
+  refine allPre_append a2 ?_
+  refine allPre_cons (good_of_ph1 inv hTr p2) ?_
+  -- first commit
+  have e : ∀ x : XSt, exec (execAll x (((rsP t s p zs).map (setPk tmpId)).map .sqlMove)) .sqlCommit =
+      execAll x (((rsP t s p zs).map (setPk tmpId)).map .sqlMove ++ [.sqlCommit]) := by
+    intro x; rw [execAll_append]; rfl
+  rw [e, ← execAll_append, exec_commit1 p zs inv hTp]
+  refine allPre_cons (good_st p zs inv hTr tmpId (Or.inl rfl) _ _ _ c1 (fun q h1 h2 => (o q h1 h2).1) n1) ?_
+  rw [exec_tail1]
+  refine allPre_cons (good_st p zs inv hTr tmpId (Or.inl rfl) _ _ _ c2 (fun q h1 h2 => (o q h1 h2).2.1) n2) ?_
+  rw [exec_tail2 p zs hTp hp]
+  refine allPre_cons (good_st p zs inv hTr tmpId (Or.inl rfl) _ _ _ c3 (fun q h1 h2 => (o q h1 h2).2.2.1) n3) ?_
+  rw [exec_tail3]
+  refine allPre_cons (good_st p zs inv hTr tmpId (Or.inl rfl) _ _ _ c3 (fun q h1 h2 => (o q h1 h2).2.2.1) n3) ?_
+  rw [exec_tail4 p zs hTr]
+  refine allPre_cons (good_st p zs inv hTr p (Or.inr rfl) _ _ _ c4 (fun q h1 h2 => (o q h1 h2).2.2.1) n3) ?_
+  rw [exec_tail5]
+  exact allPre_nil (good_st p zs inv hTr p (Or.inr rfl) _ _ _ c5 (fun q h1 h2 => (o q h1 h2).2.2.2) n4)
+
+theorem allPre_nil_case {t : Tab} {s : St} (inv : Inv t s) (p : Nat) (zs : List Bool)
+    (he : rowsOfPack s.rows p = []) : AllPre (Good t s) (ofSt s) (actsRepackPack t s p zs) := by
+  rw [acts_nil he]
+  have g0 : Good t s (ofSt s) :=
+    good_same inv rfl rfl rfl (fun _ _ => rfl) (by rw [keys_ofSt]; exact inv.packs_nodup)
+  split
+  · refine allPre_cons g0 (allPre_nil ?_)
+    refine good_same inv rfl rfl rfl ?_ ?_
+    · intro r hr
+      have hrp : r.pack ≠ p := by
+        intro hrp
+        have : r ∈ rowsOfPack s.rows p := mem_rowsOfPack.mpr ⟨hr, hrp⟩
+        rw [he] at this
+        simp at this
+      exact getX_eraseX_ne _ _ _ hrp
+    · exact nodup_keys_eraseX _ (by rw [keys_ofSt]; exact inv.packs_nodup)
+  · exact allPre_nil g0
+
+/-! ### run to completion -/
+
+theorem repackPack_nil {t : Tab} {s s' : St} {m : Mode} {p : Nat} {order : List Nat} {zs : List Bool}
+    (he : rowsOfPack s.rows p = []) (h : repackPack t s m p order zs = some s') :
+    s' = { s with packs := erasePack s.packs p } := by
+  unfold repackPack at h
+  simp only [he] at h
+  split at h
+  · simp only [Option.some.injEq] at h
+    exact h.symm
+  · simp at h
+
+theorem repackPack_cons {t : Tab} {s s' : St} {m : Mode} {p : Nat} {order : List Nat} {zs : List Bool}
+    (hne : rowsOfPack s.rows p ≠ []) (h : repackPack t s m p order zs = some s') :
+    s' = { s with packs := setPack s.packs p (rebuild t p (srt s p) zs 0).1,
+                  rows := s.rows.map (repackRow p (rsP t s p zs)) } := by
+  unfold repackPack at h
+  simp only at h
+  split at h
+  · simp at h
+  · split at h
+    · simp at h
+    · split at h
+      · simp at h
+      · simp only [Option.some.injEq] at h
+        subst h
+        rfl
+
+theorem not_mem_keys_eraseX (ps : List (Nat × XPack)) (p : Nat) : p ∉ (eraseX ps p).map (·.1) := by
+  intro h
+  induction ps with
+  | nil => simp [eraseX] at h
+  | cons e rest ih =>
+    obtain ⟨q, o⟩ := e
+    by_cases hq : q = p
+    · simp only [eraseX, hq, if_true] at h
+      exact ih h
+    · simp only [eraseX, hq, if_false, List.map_cons, List.mem_cons] at h
+      rcases h with h | h
+      · exact hq h.symm
+      · exact ih h
+
+theorem toSt_eraseX (s : St) (p : Nat) :
+    (eraseX (ofSt s).packs p).map (fun e => (e.1, e.2.segs)) = erasePack s.packs p := by
+  simp only [ofSt]
+  induction s.packs with
+  | nil => rfl
+  | cons e rest ih =>
+    obtain ⟨q, o⟩ := e
+    by_cases hq : q = p
+    · simp [eraseX, erasePack, hq, ih]
+    · simp [eraseX, erasePack, hq, ih]
+
+/-- the pack files at the end: the old file is gone, the new one is the last directory entry -/
+theorem PF_eq {t : Tab} {s : St} (p : Nat) (zs : List Bool) (hT : ∀ e ∈ s.packs, e.1 ≠ tmpId) (hp : p ≠ tmpId) :
+    PF t s p zs = eraseX (ofSt s).packs p ++ [(p, full (rebuild t p (srt s p) zs 0).1)] := by
+  have hp' : ¬ tmpId = p := fun h => hp h.symm
+  have hT0 := tmp_not_mem hT
+  have hT1 : tmpId ∉ (eraseX (ofSt s).packs p).map (·.1) := fun h => hT0 ((keys_eraseX_sublist _ _).subset h)
+  have e1 : PU t s p zs = eraseX (ofSt s).packs p ++ [(tmpId, full (rebuild t p (srt s p) zs 0).1)] := by
+    show eraseX (_ ++ _) p = _
+    rw [eraseX_append]
+    simp [eraseX, hp']
+  have e2 : PL t s p zs = eraseX (ofSt s).packs p ++ [(tmpId, full (rebuild t p (srt s p) zs 0).1)] ++
+      [(p, full (rebuild t p (srt s p) zs 0).1)] := by
+    show setX (PU t s p zs) p _ = _
+    rw [e1]
+    apply setX_of_not_mem
+    simp only [List.map_append, List.mem_append, List.map_cons, List.map_nil, List.mem_singleton]
+    rintro (h | h)
+    · exact not_mem_keys_eraseX _ _ h
+    · exact hp h
+  show eraseX (PL t s p zs) tmpId = _
+  rw [e2, eraseX_append, eraseX_append, eraseX_of_not_mem hT1]
+  simp [eraseX, hp]
+
+theorem getPack_append_last_eq {a : Packs} {p : Nat} (v : List Seg) (h : p ∉ a.map (·.1)) :
+    getPack (a ++ [(p, v)]) p = some v := by
+  induction a with
+  | nil => simp [getPack]
+  | cons e rest ih =>
+    obtain ⟨q, o⟩ := e
+    simp at h
+    have h1 : ¬ q = p := fun h' => h.1 h'.symm
+    simp only [List.cons_append, getPack, h1, if_false]
+    exact ih (by simpa using h.2)
+
+theorem getPack_append_last_ne (a : Packs) {p q : Nat} (v : List Seg) (h : q ≠ p) :
+    getPack (a ++ [(p, v)]) q = getPack a q := by
+  induction a with
+  | nil =>
+    have : ¬ p = q := fun h' => h h'.symm
+    simp [getPack, this]
+  | cons e rest ih =>
+    obtain ⟨r, o⟩ := e
+    by_cases hr : r = q
+    · simp [getPack, hr]
+    · simp [getPack, hr, ih]
+
+theorem not_mem_keys_erasePack (ps : Packs) (p : Nat) : p ∉ (erasePack ps p).map (·.1) := by
+  intro h
+  induction ps with
+  | nil => simp [erasePack] at h
+  | cons e rest ih =>
+    obtain ⟨q, o⟩ := e
+    by_cases hq : q = p
+    · simp only [erasePack, hq, if_true] at h
+      exact ih h
+    · simp only [erasePack, hq, if_false, List.map_cons, List.mem_cons] at h
+      rcases h with h | h
+      · exact hq h.symm
+      · exact ih h
+
+theorem erasePack_of_getPack_none {ps : Packs} {p : Nat} (h : getPack ps p = none) : erasePack ps p = ps := by
+  induction ps with
+  | nil => rfl
+  | cons e rest ih =>
+    obtain ⟨q, o⟩ := e
+    by_cases hq : q = p
+    · simp [getPack, hq] at h
+    · simp only [getPack, hq, if_false] at h
+      simp [erasePack, hq, ih h]
+
+theorem perm_erase_set {ps : Packs} (nd : (ps.map (·.1)).Nodup) {p : Nat} (hm : p ∈ ps.map (·.1)) (v : List Seg) :
+    (erasePack ps p ++ [(p, v)]).Perm (setPack ps p v) := by
+  induction ps with
+  | nil => simp at hm
+  | cons e rest ih =>
+    obtain ⟨q, o⟩ := e
+    simp only [List.map_cons, List.nodup_cons] at nd
+    by_cases hq : q = p
+    · subst hq
+      have : erasePack rest q = rest := erasePack_of_getPack_none (getPack_none_of_not_mem nd.1)
+      simp only [erasePack, setPack, if_true, this]
+      exact List.perm_append_singleton _ _
+    · have hm' : p ∈ rest.map (·.1) := by
+        simp only [List.map_cons, List.mem_cons] at hm
+        rcases hm with h | h
+        · exact absurd h.symm hq
+        · exact h
+      simp only [erasePack, setPack, hq, if_false, List.cons_append]
+      exact (ih nd.2 hm').cons _
+
+theorem getPack_erase_set (ps : Packs) (p : Nat) (v : List Seg) (q : Nat) :
+    getPack (erasePack ps p ++ [(p, v)]) q = getPack (setPack ps p v) q := by
+  by_cases hq : q = p
+  · subst hq
+    rw [getPack_append_last_eq v (not_mem_keys_erasePack ps q), getPack_setPack_eq]
+  · rw [getPack_append_last_ne _ v hq, getPack_erasePack_ne _ _ _ hq, getPack_setPack_ne _ _ _ _ hq]
+
+theorem toSt_ofSt_packs (s : St) : (ofSt s).packs.map (fun e => (e.1, e.2.segs)) = s.packs := by
+  simp only [ofSt, List.map_map]
+  conv => rhs; rw [← List.map_id s.packs]
+  apply List.map_congr_left
+  intro e _
+  rfl
+
+/-- the state at the end of a repack of a pack with rows -/
+theorem exec_all_cons {t : Tab} {s : St} (inv : Inv t s) (hTp : ∀ e ∈ s.packs, e.1 ≠ tmpId)
+    (hTr : ∀ r ∈ s.rows, r.pack ≠ tmpId) (p : Nat) (hp : p ≠ tmpId) (zs : List Bool)
+    (hne : rowsOfPack s.rows p ≠ []) :
+    execAll (ofSt s) (actsRepackPack t s p zs) = st s [] (PF t s p zs) (Rq t s p zs p) none := by
+  rw [acts_cons hne]
+  have e : ∀ (S M : List Act), S ++ (M ++ (Act.sqlCommit ::
+        [Act.pkUnlink p, .pkLink tmpId p, .sqlRepoint tmpId p, .sqlCommit, .pkUnlink tmpId])) =
+      (S ++ (M ++ [Act.sqlCommit])) ++
+        [Act.pkUnlink p, .pkLink tmpId p, .sqlRepoint tmpId p, .sqlCommit, .pkUnlink tmpId] := by
+    intro S M; simp
+  rw [e, execAll_append, exec_commit1 p zs inv hTp]
+  simp only [execAll]
+  rw [exec_tail1, exec_tail2 p zs hTp hp, exec_tail3, exec_tail4 p zs hTr, exec_tail5]
+
+/-- what the repack of a pack with rows leaves on disk: the pack files in directory order, the index -/
+theorem done_repackPack_cons {t : Tab} {s : St} (inv : Inv t s) (hTp : ∀ e ∈ s.packs, e.1 ≠ tmpId)
+    (hTr : ∀ r ∈ s.rows, r.pack ≠ tmpId) (p : Nat) (hp : p ≠ tmpId) (zs : List Bool)
+    (hne : rowsOfPack s.rows p ≠ []) :
+    toSt (execAll (ofSt s) (actsRepackPack t s p zs)) =
+      { s with packs := erasePack s.packs p ++ [(p, (rebuild t p (srt s p) zs 0).1)],
+               rows := s.rows.map (repackRow p (rsP t s p zs)) } := by
+  rw [exec_all_cons inv hTp hTr p hp zs hne]
+  simp only [toSt, st]
+  rw [PF_eq p zs hTp hp, show Rq t s p zs p = _ from mvd_self inv p zs, loose_ofSt_map s (fun f => f.cid) (fun _ => rfl)]
+  simp only [List.map_append, toSt_eraseX]
+  rfl
+
+/-- what the repack of a pack without rows leaves on disk -/
+theorem done_repackPack_nil {t : Tab} {s : St} (p : Nat) (zs : List Bool) (he : rowsOfPack s.rows p = []) :
+    toSt (execAll (ofSt s) (actsRepackPack t s p zs)) = { s with packs := erasePack s.packs p } := by
+  rw [acts_nil he]
+  split
+  · simp only [execAll, exec, toSt]
+    rw [toSt_eraseX, show (ofSt s).loose = (ofSt s).loose from rfl,
+      loose_ofSt_map s (fun f => f.cid) (fun _ => rfl)]
+    rfl
+  · rename_i hnone
+    have hnone' : getPack s.packs p = none := by
+      cases h : getPack s.packs p with
+      | none => rfl
+      | some v => simp [h] at hnone
+    simp only [execAll, toSt]
+    rw [toSt_ofSt_packs, loose_ofSt_map s (fun f => f.cid) (fun _ => rfl), erasePack_of_getPack_none hnone']
+    rfl
+
+/-! ### the counterexample to `done_repackPack` -/
+
+namespace Cx
+def tb : Tab := { size := fun c => c + 1, zlen := fun c => c + 1 }
+def r1 : Row := { id := 1, key := 1, pack := 0, off := 0, len := 2, z := false, size := 2 }
+def r2 : Row := { id := 2, key := 2, pack := 1, off := 0, len := 3, z := false, size := 3 }
+def s0 : St := St.mk [] [(0, [Seg.mk 1 false]), (1, [Seg.mk 2 false])] [r1, r2] 0 100
+
+theorem repack_s0 : repackPack tb s0 .keep 0 [1] [false] = some s0 := by rfl
+
+theorem noTmp_s0 : NoTmp s0 := by
+  constructor <;> simp [s0, r1, r2, tmpId]
+
+theorem inv_s0 : Inv tb s0 := by
+  refine ⟨?_, by decide, by decide, ?_, by decide, by decide, by simp [s0], by decide⟩
+  · intro r hr
+    simp only [s0, List.mem_cons, List.not_mem_nil, or_false] at hr
+    rcases hr with rfl | rfl
+    · exact ⟨[Seg.mk 1 false], [], [], rfl, rfl, rfl, rfl, rfl⟩
+    · exact ⟨[Seg.mk 2 false], [], [], rfl, rfl, rfl, rfl, rfl⟩
+  · intro a ha b hb
+    simp only [s0, List.mem_cons, List.not_mem_nil, or_false] at ha hb
+    rcases ha with rfl | rfl <;> rcases hb with rfl | rfl <;> simp [r1, r2]
+
+theorem packs_s0 : (toSt (execAll (ofSt s0) (actsRepackPack tb s0 0 [false]))).packs =
+    [(1, [Seg.mk 2 false]), (0, [Seg.mk 1 false])] := by decide
+
+theorem not_sameDisk : ¬ SameDisk (toSt (execAll (ofSt s0) (actsRepackPack tb s0 0 [false]))) s0 := by
+  intro h
+  have h1 := h.1
+  revert h1
+  decide
+end Cx
+
+end Repack
+
+/-- equality of the pack *lists* does not hold in general (the order of the association list differs) -/
+theorem done_repackPack_listorder_differs :
+    ¬ (∀ {t : Tab} {s s' : St} (_ : Inv t s) (_ : NoTmp s) {m : Mode} {p : Nat} {order : List Nat}
+        {zs : List Bool} (_ : p ≠ tmpId) (_ : repackPack t s m p order zs = some s'),
+        SameDisk (toSt (execAll (ofSt s) (actsRepackPack t s p zs))) s') := by
+  intro h
+  exact Repack.Cx.not_sameDisk
+    (h Repack.Cx.inv_s0 Repack.Cx.noTmp_s0 (by decide) Repack.Cx.repack_s0)
+
+/-- `SameDisk` up to the order of the directory entries of the pack folder: the same pack files (as a multiset,
+    and hence the same file for every pack id), the same index, the same loose files, the same target. -/
+def SameFiles (a b : St) : Prop :=
+  a.packs.Perm b.packs ∧ (∀ q, getPack a.packs q = getPack b.packs q) ∧ a.rows = b.rows ∧
+    (∀ e, e ∈ a.loose ↔ e ∈ b.loose) ∧ a.target = b.target
+
+open Repack in
+/-- Run to completion, the action list of `repack_pack` gives the Level-B result (as a set of files, see the top of the file):
+    run to completion, the action list gives the Level-B repack of that pack up to the position of pack `p` in the
+    list of pack files (the relinked pack becomes the last entry; Level B replaces it in place). -/
+theorem done_repackPack {t : Tab} {s s' : St} (inv : Inv t s) (nt : NoTmp s) {m : Mode} {p : Nat}
+    {order : List Nat} {zs : List Bool} (hp : p ≠ tmpId) (h : repackPack t s m p order zs = some s') :
+    SameFiles (toSt (execAll (ofSt s) (actsRepackPack t s p zs))) s' := by
+  by_cases he : rowsOfPack s.rows p = []
+  · rw [done_repackPack_nil p zs he, repackPack_nil he h]
+    exact ⟨List.Perm.refl _, fun _ => rfl, rfl, fun _ => Iff.rfl, rfl⟩
+  · rw [done_repackPack_cons inv nt.1 nt.2 p hp zs he, repackPack_cons he h]
+    have hm : p ∈ s.packs.map (·.1) := by
+      obtain ⟨r, hr⟩ := List.exists_mem_of_ne_nil _ he
+      obtain ⟨hr1, hr2⟩ := mem_rowsOfPack.mp hr
+      obtain ⟨segs, _, _, hg, _⟩ := inv.rows_ok r hr1
+      rw [hr2] at hg
+      exact mem_keys_of_getPack hg
+    exact ⟨perm_erase_set inv.packs_nodup hm _, getPack_erase_set _ _ _, rfl, fun _ => Iff.rfl, rfl⟩
+
+open Repack in
+/-- when the repacked pack is the last pack file (or has no rows) the statement holds as given -/
+theorem done_repackPack_last {t : Tab} {s s' : St} (inv : Inv t s) (nt : NoTmp s) {m : Mode} {p : Nat}
+    {order : List Nat} {zs : List Bool} (hp : p ≠ tmpId) (h : repackPack t s m p order zs = some s')
+    (hlast : rowsOfPack s.rows p = [] ∨ ∃ a v, s.packs = a ++ [(p, v)]) :
+    SameDisk (toSt (execAll (ofSt s) (actsRepackPack t s p zs))) s' := by
+  by_cases he : rowsOfPack s.rows p = []
+  · rw [done_repackPack_nil p zs he, repackPack_nil he h]
+    exact ⟨rfl, rfl, fun _ => Iff.rfl, rfl⟩
+  · rw [done_repackPack_cons inv nt.1 nt.2 p hp zs he, repackPack_cons he h]
+    rcases hlast with hl | ⟨a, v, hl⟩
+    · exact absurd hl he
+    · refine ⟨?_, rfl, fun _ => Iff.rfl, rfl⟩
+      show erasePack s.packs p ++ _ = setPack s.packs p _
+      have nd := inv.packs_nodup
+      rw [hl] at nd ⊢
+      have hpa : p ∉ a.map (·.1) := by
+        simp only [List.map_append, List.map_cons, List.map_nil] at nd
+        intro hpa
+        exact (List.nodup_append.mp nd).2.2 p hpa p (by simp) rfl
+      have e1 : erasePack (a ++ [(p, v)]) p = a := by
+        clear nd hl
+        induction a with
+        | nil => simp [erasePack]
+        | cons e rest ih =>
+          obtain ⟨q, o⟩ := e
+          simp at hpa
+          have hq : ¬ q = p := fun h' => hpa.1 h'.symm
+          simp only [List.cons_append, erasePack, hq, if_false]
+          rw [ih (by simpa using hpa.2)]
+      have e2 : ∀ w, setPack (a ++ [(p, v)]) p w = a ++ [(p, w)] := by
+        intro w
+        clear nd hl e1
+        induction a with
+        | nil => simp [setPack]
+        | cons e rest ih =>
+          obtain ⟨q, o⟩ := e
+          simp at hpa
+          have hq : ¬ q = p := fun h' => hpa.1 h'.symm
+          simp only [List.cons_append, setPack, hq, if_false]
+          rw [ih (by simpa using hpa.2)]
+      rw [e1, e2]
+
+set_option linter.unusedVariables false in
+open Repack in
 /-- a repack interrupted anywhere (kill, power loss, single fault) never lets a key read as anything but itself;
     at worst it fails loudly because the index names the temporary pack -/
 theorem safe_repackPack {t : Tab} (wf : t.WF) {s : St} (inv : Inv t s) (hb : Bounded s) (nt : NoTmp s) (p : Nat)
     (hp : p ≠ tmpId) (zs : List Bool) (hz : zs.length = (rowsOfPack s.rows p).length) :
     AllSafe t s (actsRepackPack t s p zs) (keysOf s) := by
-  sorry
+  apply allSafe_of_good wf inv
+  by_cases he : rowsOfPack s.rows p = []
+  · exact allPre_nil_case inv p zs he
+  · exact allPre_cons_case inv nt.1 nt.2 p hp zs he
 
 end Dos.IO
